@@ -17,6 +17,8 @@ func init() {
 			RuleDoc: map[string]string{
 				"R1.lockset":     "every guarded access reachable from an entry point is covered by the required mode of the state mutex (shim server)",
 				"R3.noreacquire": "no call made while the mutex is held reaches a function that acquires it",
+				"R1.release":     "every return of a function that takes the state mutex leaves it released (deferred unlock dominating the return, or not held)",
+				"R1.atomic":      "an operation that takes the state mutex has one critical section: it does not also call a helper that takes and releases the mutex on its own (check-then-act)",
 				"R3.nowait":      "no Cond.Wait / channel receive while the mutex is held",
 				"R4.lockset":     "yubiagent client: the connection and the agent built on it are used only under connLock (Close excepted)",
 				"R4.noreacquire": "as R3 for connLock",
